@@ -24,6 +24,7 @@ const (
 	OpPool
 	OpUser
 	OpOnce
+	OpPostLoad
 )
 
 // Policy kinds.
@@ -75,6 +76,10 @@ type SchedConfig struct {
 	Replay     []int // literal schedule (nil = draw from rng)
 	CanTick    func(deltaNs uint64) bool
 	ForcedTail bool
+	// PostLoad adds a scheduling point AFTER every atomic load, so that the plain
+	// code that follows a check (check-then-act on unsynchronised fields) can be
+	// separated from the check by other tasks.
+	PostLoad bool
 }
 
 type Sched struct {
@@ -486,6 +491,17 @@ func Yield(op uint8) {
 	if next != nil && next != t {
 		s.switchTo(t, next)
 	}
+}
+
+// AfterLoad is called by the instrumented atomic loads after the value was read.
+//
+//go:norace
+func AfterLoad() {
+	s := active
+	if s == nil || !s.cfg.PostLoad {
+		return
+	}
+	Yield(OpPostLoad)
 }
 
 // Spin replaces runtime.Gosched in instrumented code: the caller declares that
